@@ -123,8 +123,44 @@ sys.exit(0)
 '''
 
 
+PARAM_SHADOWS_GLOBAL = '''
+import sys, os, tempfile, importlib.util
+import numpy as np
+src = """
+from onnxscript import script, FLOAT, BOOL
+from onnxscript import opset18 as op
+c = True
+
+@script(default_opset=op)
+def f(X: FLOAT[2], c: BOOL) -> FLOAT[2]:
+    if c:
+        y = X + 1.0
+    else:
+        y = X - 1.0
+    return y
+"""
+d = tempfile.mkdtemp(); path = os.path.join(d, "psg_case.py"); open(path, "w").write(src)
+spec = importlib.util.spec_from_file_location("psg_case", path); mod = importlib.util.module_from_spec(spec); sys.modules["psg_case"] = mod; spec.loader.exec_module(mod)
+import onnxruntime as ort
+m = mod.f.to_model_proto()
+sess = ort.InferenceSession(m.SerializeToString(), providers=["CPUExecutionProvider"])
+x = np.array([1, 2], np.float32)
+bad = 0
+for cv in (True, False):
+    eager = np.asarray(mod.f(x, np.array(cv)))
+    graph = sess.run(None, {"X": x, "c": np.array(cv)})[0]
+    plain = x + 1.0 if cv else x - 1.0
+    if not (np.array_equal(eager, graph) and np.array_equal(graph, plain)):
+        print(f"f(X, c={cv}) with a module global c = True: eager {eager.tolist()}, graph {graph.tolist()}, plain Python {plain.tolist()}")
+        bad += 1
+sys.exit(1 if bad else 0)
+'''
+
+
 def replay(ob):
     name = ob["name"]
+    if "constant_if.name_is_not_a_parameter" in name:
+        return PARAM_SHADOWS_GLOBAL
     if name.startswith("cast_inputs.loop"):
         from props import C12
         return C12.PROMOTE_REPLAY
